@@ -552,10 +552,15 @@ def compare(c, impl, model):
             return None
         if impl['size'] != size:
             return 'size: impl %s model %s' % (impl['size'], size)
+        # a malformed but accepted timed set may regroup matrices (positional fall-back for unknown names, copies):
+        # gaps are then not powers of two (f64 interpolation inexact) or stamps repeat (binary_search unspecified)
+        values_exact = not (c['kind'] == 'prag-malformed' and any(m['ts'] is not None for m in c['mats']))
         for k, (ia, ma) in enumerate(zip(impl['ans'], answers)):
             vi = c['qs'][k][0]
             if impl['vehicles'][vi][0] != ma[0]:
                 return 'vehicle %d profile index: impl %s model %s' % (vi, impl['vehicles'][vi][0], ma[0])
+            if not values_exact:
+                continue
             got = [val(x) for x in ia]
             exp = [rout(ma[1]), rout(ma[2])]
             if got != exp:
